@@ -298,7 +298,7 @@ func (s *Scanner) Scan(src interface{}) error {
 		reflect.Int, reflect.Int8, reflect.Int16, reflect.Int32, reflect.Int64,
 		reflect.Uint, reflect.Uint8, reflect.Uint16, reflect.Uint32, reflect.Uint64:
 		i := sql.NullInt64{}
-		if err := i.Scan(src); err != nil {
+		if err := i.Scan(unsignedAtOwnWidth(s.Kind, src)); err != nil {
 			return err
 		}
 		s.value.Set(reflect.ValueOf(i.Int64).Convert(s.Type))
@@ -320,6 +320,25 @@ func (s *Scanner) Scan(src interface{}) error {
 	}
 
 	return fmt.Errorf("couldn't coerce type %T into %T", src, i)
+}
+
+// unsignedAtOwnWidth undoes the sign the binlog decoder puts on values of UNSIGNED columns: it hands
+// back the signed integer of the column's width (int8, int16, int32), which must be reinterpreted at
+// that width before it is widened into an unsigned field (int32(-1294967296) in an INT UNSIGNED column
+// is 3000000000, not 18446744072414584320).
+func unsignedAtOwnWidth(kind reflect.Kind, src interface{}) interface{} {
+	switch kind {
+	case reflect.Uint, reflect.Uint8, reflect.Uint16, reflect.Uint32, reflect.Uint64:
+		switch v := src.(type) {
+		case int8:
+			return int64(uint8(v))
+		case int16:
+			return int64(uint16(v))
+		case int32:
+			return int64(uint32(v))
+		}
+	}
+	return src
 }
 
 var _ sql.Scanner = &Scanner{}
